@@ -1,0 +1,44 @@
+//go:build verif
+
+// Contracts for package multiplex, checked by /verif/govc. Comment-only.
+package multiplex
+
+// ---------------------------------------------------------------------------------------------
+// Frame codec (C04, C11, C10, C13). Cloak v2 frame layout, written from the documented format:
+//   bytes 0..3  StreamID (big endian)      bytes 4..11 Seq (big endian)
+//   byte  12    Closing                    byte  13    extra = padding length + tag length
+//   then payload | padding | tag (AEAD) or payload | padding | 8 random bytes (plain)
+//   header bytes are XORed with the Salsa20 keystream of (session key, last 8 bytes of the message)
+//   AEAD: payload|padding sealed under the session key with nonce = the 12 first plaintext header bytes
+// Cryptography is uninterpreted (see /verif/govc/models2.go): aead_*, salsa_ks, bxor.
+// ---------------------------------------------------------------------------------------------
+
+//@ ghost func sem(o *Obfuscator) int { return uf("aead_sem", o.payloadCipher) }
+//@ ghost func cipherOK(o *Obfuscator) bool { return o.payloadCipher == nil || (uf("aead_overhead", sem(o)) == 16 && uf("aead_noncesize", sem(o)) == 12) }
+//@ ghost func tagLen(o *Obfuscator) int { return ite(o.payloadCipher == nil, 8, uf("aead_overhead", sem(o))) }
+//@ ghost func hdrByte(sid uint32, seq uint64, closing uint8, extra int, i int) byte {
+//@     return ite(i == 0, byte(sid>>24), ite(i == 1, byte(sid>>16), ite(i == 2, byte(sid>>8), ite(i == 3, byte(sid), ite(i == 4, byte(seq>>56), ite(i == 5, byte(seq>>48), ite(i == 6, byte(seq>>40), ite(i == 7, byte(seq>>32), ite(i == 8, byte(seq>>24), ite(i == 9, byte(seq>>16), ite(i == 10, byte(seq>>8), ite(i == 11, byte(seq), ite(i == 12, closing, byte(extra))))))))))))))
+//@ }
+//@ ghost func nonceOf(sid uint32, seq uint64) [12]byte {
+//@     return [12]byte{byte(sid>>24), byte(sid>>16), byte(sid>>8), byte(sid), byte(seq>>56), byte(seq>>48), byte(seq>>40), byte(seq>>32), byte(seq>>24), byte(seq>>16), byte(seq>>8), byte(seq)}
+//@ }
+//@ ghost func ksByte(o *Obfuscator, msg []byte, i int) byte { return ufbytes("salsa_ks", i, msg[len(msg)-8:len(msg)], o.sessionKey) }
+//@ ghost func xorb(a byte, k byte) byte { return byte(uf("bxor", a, k)) }
+
+//@ func (*Obfuscator).obfuscate
+//@   requires f != nil && cipherOK(o)
+//@   requires placement: payloadOffsetInBuf == 14 ==> aliases(f.Payload, buf, 14)
+//@   requires copyMode: payloadOffsetInBuf != 14 ==> disjoint(f.Payload, buf)
+//@   requires keyApart: arrayOf(buf) != arrayOf(o.sessionKey) && arrayOf(f.Payload) != arrayOf(o.sessionKey)
+//@   ensures emptyRejected: len(f.Payload) == 0 ==> ret1 != nil
+//@   ensures errZero: ret1 != nil ==> ret0 == 0
+//@   ensures fits: ret1 == nil ==> ret0 <= len(buf)
+//@   ensures lenLow: ret1 == nil ==> ret0 >= 14 + len(f.Payload) + tagLen(o)
+//@   ensures lenHigh: ret1 == nil ==> ret0 <= 14 + len(f.Payload) + 255
+//@   ensures noPadAfter5: ret1 == nil && f.Seq >= 5 ==> ret0 == 14 + len(f.Payload) + tagLen(o)
+//@   ensures bigEnough: len(f.Payload) > 0 && len(buf) >= 14 + len(f.Payload) + 255 ==> ret1 == nil
+//@   ensures header: ret1 == nil ==> (forall i int :: 0 <= i && i < 14 ==> buf[i] == xorb(hdrByte(f.StreamID, f.Seq, f.Closing, ret0 - 14 - len(f.Payload), i), ksByte(o, buf[0:ret0], i)))
+//@   ensures plainBody: ret1 == nil && o.payloadCipher == nil ==> (forall k int :: 0 <= k && k < len(f.Payload) ==> buf[14+k] == old(f.Payload[k]))
+//@   ensures sealedValid: ret1 == nil && o.payloadCipher != nil ==> ufb("aead_valid", sem(o), nonceOf(f.StreamID, f.Seq), 12, buf[14:ret0])
+//@   ensures sealedBody: ret1 == nil && o.payloadCipher != nil ==> (forall k int :: 0 <= k && k < len(f.Payload) ==> ufbytes("aead_open", k, sem(o), nonceOf(f.StreamID, f.Seq), 12, buf[14:ret0]) == old(f.Payload[k]))
+//@   modifies elems(buf)
